@@ -5,7 +5,7 @@ import funcspec
 def run(ctx):
     return funcspec.check(
         ctx, "Capacity",
-        entries=[("daemon", "TestVerifCapacityDaemon", False), ("pkg/controller/node", "TestVerifCapacityNode", False)],
+        entries=[("daemon", "TestVerifCapacityDaemon", False), ("daemon", "TestVerifCapacityRestart", False), ("pkg/controller/node", "TestVerifCapacityNode", False)],
         rule="TLC enumerates DomSeq of specs/Capacity.tla completely: (instance-type description, configuration) pairs for the "
              "daemon start-up chain (annotation -> getInstanceType -> checkInstance -> getPoolConfig) and for the control-plane "
              "chain (DescribeInstanceTypes -> ReconcileNode -> daemon nodeReconcile -> ReconcileNode k8sAnno/patchNodeRes on a "
@@ -28,6 +28,5 @@ def run(ctx):
                      "that the member-ENI resource is published whenever the code under test enables trunking",
                      "watermarks are judged on the daemon's computed PoolConfig; Node.Spec.Pool of the Node CR is raw "
                      "configuration passed to the IPAM controller and is not judged (reading R8 in the spec)",
-                     "daemon/builder.go setupENIManager (annotation arithmetic on top of PoolConfig, needs the cloud client "
-                     "and the metadata service) and the kubelet device-plugin counts are not executed; the PoolConfig, "
-                     "Limits and switches they publish are"])
+                     "daemon/builder.go setupENIManager is executed by the 'restart' cases only (ENIMultiIP, ipv4, no trunk / RDMA, k interfaces "
+                     "already attached; fake metadata service); the kubelet device-plugin counts are not executed"])
